@@ -159,6 +159,8 @@ NextE == /\ TLCGet("level") < MaxDepth
             \/ \E k \in Slots : DoDrop(k)
 Bound == Cardinality(DOMAIN m.succ) <= MaxNodes
 InvOK == ok
+(* NON-VACUITY PROBE (expected to be VIOLATED): the entries never run on a two-level diagram *)
+ProbeFlat == \A n \in NodesOf(m) \ {1} : Abs(m.succ[n][2]) = 1 /\ Abs(m.succ[n][3]) = 1
 InvCanonical == Canonical(m)
 InvRef == RefExact(m, LedgerOf(h))
 =============================================================================
